@@ -13,5 +13,5 @@ CONSTANTS
   NF = 2
   Modes = {0, 1}
   Full = FALSE
-INVARIANTS CountMatches RootsMatchNaive ProofsMatchNaive MemberSound SupplementSound HistorySound CarrierSound
+INVARIANTS CountMatches RootsMatchNaive ProofsMatchNaive MemberSound SupplementSound HistorySound CarrierSound KindsDisjoint
 CHECK_DEADLOCK FALSE
